@@ -355,8 +355,15 @@ func c14Run(env *core.Env, idx int) *core.CaseResult {
 				nst := 2 + r.Intn(4)
 				dead := false
 				var sqls []string
+				shrinkAbort := r.Intn(3) == 0 && len(p.Rows) > 0
 				for k := 0; k < nst && !dead; k++ {
 					st := genStmt()
+					if shrinkAbort && k == 0 {
+						// a shrinking update of the most recently inserted row moves it within its own (last) page; the transaction is
+						// aborted below: the rollback of a same-page relocation has a path of its own
+						last := p.Rows[len(p.Rows)-1][0].I
+						st = stmt{fmt.Sprintf("UPDATE p SET pv = 's' WHERE id = %d;", last), "update-shrinking-last-row"}
+					}
 					if st.kind == "plan-error" {
 						st = stmt{"SELECT id, pk FROM p WHERE id >= 0 OR pk = 2;", "select-scan"}
 					}
@@ -374,7 +381,7 @@ func c14Run(env *core.Env, idx int) *core.CaseResult {
 					}
 				}
 				end := "commit"
-				if dead || r.Intn(3) == 0 {
+				if dead || shrinkAbort || r.Intn(3) == 0 {
 					end = "abort"
 				}
 				if msg, panicked := guarded(func() {
